@@ -18,7 +18,13 @@ from concurrent.futures import ThreadPoolExecutor
 VERIF = os.path.dirname(os.path.dirname(os.path.abspath(__file__)))
 REPO = os.environ.get('NOPSA_REPO', '/repo')
 NOPX = os.path.join(VERIF, '.build', 'nopx')
-CACHE = os.path.join(VERIF, '.cache')
+# extraction cache: for /repo itself under /verif/.cache (pruned to the current tree on every load); for a scratch tree
+# (NOPSA_REPO set) under NOPSA_OUT, i.e. inside the scratch directory that its creator removes - a patched tree never
+# leaves cache entries behind
+if os.environ.get('NOPSA_REPO') and os.environ.get('NOPSA_OUT'):
+    CACHE = os.path.join(os.environ['NOPSA_OUT'], '.cache')
+else:
+    CACHE = os.path.join(VERIF, '.cache')
 INCLUDE = os.path.join(REPO, 'include')
 
 
@@ -169,9 +175,17 @@ def load(tier='quick', want_tus=None):
     base = _sha(_tree(INCLUDE) + _tree(os.path.join(REPO, 'test')) + _tree(os.path.join(REPO, 'examples')) +
                 _tree(os.path.join(VERIF, 'probes')) + [NOPX])
     jobs = []
+    gen = base[:16]
     for tu in tus:
         key = hashlib.sha256((base + tu + ' '.join(flags(tu))).encode()).hexdigest()[:24]
-        jobs.append((tu, key))
+        jobs.append((tu, os.path.join(gen, key)))
+    # keep only the current tree's generation in the cache (a changed tree invalidates everything anyway)
+    tu_dir = os.path.join(CACHE, 'tu')
+    if os.path.isdir(tu_dir):
+        import shutil
+        for d_ in os.listdir(tu_dir):
+            if d_ != gen:
+                shutil.rmtree(os.path.join(tu_dir, d_), ignore_errors=True)
     with ThreadPoolExecutor(max_workers=16) as ex:
         results = list(ex.map(lambda j: _extract_one(*j), jobs))
     db = DB()
